@@ -10,6 +10,7 @@ mod snap;
 mod symrec;
 mod tp;
 mod util;
+mod ver;
 
 fn main() {
     let args: Vec<String> = std::env::args().collect();
@@ -29,6 +30,7 @@ fn main() {
         "expr-replay" => expr::cmd_replay(&args[2], &args[3]),
         "sym-record" => symrec::cmd_record(args[2].parse().unwrap(), &args[3]),
         "tp-replay" => tp::cmd_replay(&args[2], &args[3]),
+        "ver-replay" => ver::cmd_replay(&args[2], &args[3]),
         "auth-replay" => auth::cmd_replay(&args[2], &args[3]),
         "dlog-replay" => dlog::cmd_replay(&args[2], &args[3]),
         "chain-honest" => chain::cmd_honest(&args[2], &args[3]),
